@@ -77,8 +77,10 @@ def _gen_user_program(rng):
     for i in range(rng.randint(1, 5)):
         args = []
         prev = [c["result"] for c in cmds]
-        for k in rng.sample(["V", "OutFileName", "NewFieldName", "A", "InFieldNames", "Anything"], rng.randint(0, 4)):
-            if k == "V":
+        for k in rng.sample(["V", "OutFileName", "NewFieldName", "A", "InFieldNames", "Anything", "Metadata"], rng.randint(0, 4)):
+            if k == "Metadata":
+                v = syntax.gen_tuple(rng)      # key / value entries keep the kind of value that was written (numbers stay numbers)
+            elif k == "V":
                 v = syntax.gen_int(rng) if rng.random() < 0.5 else syntax.gen_float(rng)
             elif k in ("OutFileName", "NewFieldName"):
                 v = syntax.gen_qstr(rng)
@@ -121,6 +123,8 @@ def run_viaprogram(ctx, case):
             v = v.value
         if isinstance(v, list):
             return [plain(x) for x in v]
+        if isinstance(v, dict):
+            return {k_: plain(syntax.strip_node(x)) for k_, x in v.items()}
         return v
     got = list(p.commands.items())
     if [n for n, _ in got] != [c["result"] for c in prog["commands"]]:
